@@ -65,7 +65,8 @@ FileHeaps ==
    HG(F33dense, "csr", "F33gmd2", <<<<"observation", "phylogeny", "newick", "((o1,o2),o3);">>,
                                      <<"observation", "second", "txt", "another entry">>,
                                      <<"sample", "g1", "txt", "x">>, <<"sample", "g2", "txt", "y">>>>)}
-WideHeaps == {H1(W2x10, "dense", "W2x10"), H1(W2x10, "csc", "W2x10c"), H1(W10x2, "dense", "W10x2")}
+WideHeaps == {H1(W2x10, "dense", "W2x10"), H1(W2x10, "csc", "W2x10c"), H1(W10x2, "dense", "W10x2"),
+              H1(W2x12, "dense", "W2x12"), H1(W12x2, "dense", "W12x2")}
 JsonHeaps == FileHeaps \cup {H1(F23json, "dense", "F23json"), H1(F23odd, "csr_unsorted", "F23odd")}
 SumHeaps ==
   {H1(F23ord, "dense", "F23ord"), H1(F23neg, "dense", "F23neg"), H1(F23neg, "csr_zeros", "F23negz"), H1(F23cancel, "csc", "F23cancel"), H1(CT34, "dense", "CT34"), H1(CT34, "csr_zeros", "CT34z"), H1(CT23, "csr_unsorted", "CT23u"), H1(CT23, "csc", "CT23c"),
@@ -139,6 +140,6 @@ MCPhases == [i \in 1..Len(PhaseSpec) |->
                 pick |-> PhaseSpec[i].pick, salt |-> PhaseSpec[i].salt, recv |-> PhaseSpec[i].recv]]
 RankList == <<"g0", "g1", "gA", "gB", "gC", "g_nomd", "g_o1", "g_o2", "g_o3", "g_o4", "g_p", "g_q", "g_s1", "g_s2", "g_s3",
               "g_s4", "g_x", "g_y", "gc", "n1", "n2", "n3", "n4", "n5", "n6", "o1", "o2", "o3", "o4", "o5", "s1", "s2",
-              "s3", "s4", "s5", "s6", "s7", "s8", "s9", "t1", "x1", "x2", "x3", "zz">>
+              "s3", "s4", "s5", "s6", "s7", "s8", "s9", "t1", "t2", "t3", "x1", "x2", "x3", "zz">>
 MCNatRank == [x \in SeqSet(RankList) |-> CHOOSE k \in 1..Len(RankList) : RankList[k] = x]
 =============================================================================
